@@ -80,7 +80,7 @@ class Engine:
         self.solver = None; self.pc = []
         self.decisions = []; self.replay = []; self.split_depth = None; self.truncated = None; self.cuts = []; self.all_pcs = []; self.cut_pcs = []; self.prefix_pc = None; self._prefix_len = 0
         self.stats = dict(paths=0, steps=0, queries=0, calls=0)
-        self._pcache = index.__dict__.setdefault('_pcache', {}); self._enum_cache = dict(STD_ENUMS); self._res_cache = {}
+        self._pcache = index.__dict__.setdefault('_pcache', {}); self._enum_cache = dict(STD_ENUMS); self._enum_discr = {}; self._enum_alts = {}; self._res_cache = {}
         self.enum_src_dirs = enum_src_dirs
         self.call_stack = []; self.trace = bool(__import__('os').environ.get('MIRSYM_TRACE')); self.env_stack = [{}]; self._gen_cache = index.__dict__.setdefault('_gen_cache', {})
         self.models = []                           # [(compiled regex, fn)]
@@ -162,8 +162,9 @@ class Engine:
         import os
         self._enums_loaded = True
         shared = getattr(self.ix, '_enum_tables', None)
-        if shared is not None: self._enum_cache = shared; return
-        self.ix._enum_tables = self._enum_cache
+        if shared is not None: self._enum_cache, self._enum_discr, self._enum_alts = shared; return
+        self._enum_discr = {}; self._enum_alts = {}
+        self.ix._enum_tables = (self._enum_cache, self._enum_discr, self._enum_alts)
         for d in self.enum_src_dirs:
             base = os.path.join(self.ix.repo, d)
             for root, _, files in os.walk(base):
@@ -179,11 +180,32 @@ class Engine:
                             j += 1
                         body = re.sub(r'//[^\n]*', '', txt[i:j - 1])
                         body = re.sub(r'#\[[^\]]*\]', '', body)
-                        vs = []
+                        # protect byte/char literals (they may contain brackets or commas)
+                        lits = []
+                        def _lit(mm): lits.append(mm.group(0)); return f'@LIT{len(lits) - 1}@'
+                        body = re.sub(r"b?'(?:\\.|[^'\\])'", _lit, body)
+                        vs = []; discr = {}; nextval = 0
                         for part in split_top(body):
                             mm = re.match(r'\s*(\w+)', part)
-                            if mm: vs.append(mm.group(1))
-                        self._enum_cache.setdefault(m.group(1), vs)
+                            if not mm: continue
+                            name = mm.group(1); vs.append(name)
+                            dm = re.search(r'=\s*(.+?)\s*$', part) if not re.search(r'[({]', part) else None
+                            if dm:
+                                lit = re.sub(r'@LIT(\d+)@', lambda q: lits[int(q.group(1))], dm.group(1))
+                                try:
+                                    if lit.startswith("b'") or lit.startswith("'"):
+                                        inner = lit[2:-1] if lit.startswith('b') else lit[1:-1]
+                                        nextval = ord(inner.encode().decode('unicode_escape'))
+                                    else: nextval = int(re.sub(r'_?[ui]\d+$|_', '', lit), 0)
+                                except Exception: pass
+                            discr[name] = nextval; nextval += 1
+                        nm = m.group(1)
+                        if nm in self._enum_cache and self._enum_cache[nm] != vs and nm not in STD_ENUMS:
+                            # same enum name defined twice (e.g. function-local `enum State`): keep alternatives, merge variant names
+                            self._enum_alts.setdefault(nm, [(list(self._enum_cache[nm]), dict(self._enum_discr.get(nm, {})))]).append((vs, discr))
+                            self._enum_cache[nm] = self._enum_cache[nm] + [v for v in vs if v not in self._enum_cache[nm]]
+                        else:
+                            self._enum_cache.setdefault(nm, vs); self._enum_discr.setdefault(nm, discr)
 
     def enum_variants(self, ty):
         if not getattr(self, '_enums_loaded', False): self._load_enums()
@@ -198,7 +220,16 @@ class Engine:
             for t, vs in STD_ENUMS.items():
                 if e.v in vs: return vs.index(e.v)
             raise EngineError(f'enum without type {e!r}')
-        return self.enum_variants(e.ty).index(e.v)
+        vs = self.enum_variants(e.ty)
+        alts = getattr(self, '_enum_alts', {}).get(e.ty)
+        if alts:
+            cands = {(d.get(e.v) if e.v in d else None) for v_, d in alts if e.v in v_}
+            if len(cands) == 1 and None not in cands: return cands.pop()
+            # variant name occurs in several same-named enums at different positions: disambiguate by the sibling variants is impossible here
+            raise EngineError(f'ambiguous discriminant of {e.ty}::{e.v}')
+        d = self._enum_discr.get(e.ty)
+        if d and e.v in d: return d[e.v]
+        return vs.index(e.v)
 
     # ---------------- places
     def parse_place(self, s):
@@ -512,6 +543,7 @@ class Engine:
             return v
         if kind in ('Transmute', 'PtrToPtr', 'IntToInt', 'Subtype'):
             if kind == 'IntToInt' and isinstance(v, bool): return int(v)
+            if kind == 'IntToInt' and isinstance(v, Enum): return self.discr(v)
             return v
         raise EngineError(f'cast {kind} to {ty}')
 
@@ -614,6 +646,8 @@ class Engine:
                 else: lhs, rhs = st.split(' = ', 1)
                 try:
                     v = self.rvalue(fr, rhs, fn)
+                    if rhs.startswith('discriminant(') and isinstance(v, Enum) and lhs[0] == '_' and lhs[1:].isdigit() and fn.types.get(int(lhs[1:]), 'isize') != 'isize':
+                        v = self.discr(v)              # `self as u8` of a fieldless enum with explicit discriminants
                     c, k = self.place(fr, lhs); c[k] = v
                 except EngineError as ex:
                     if not getattr(ex, 'ctx', None): ex.ctx = f'{fn.name} :: {st}'; ex.args = (ex.args[0] + '  @ ' + ex.ctx,)
@@ -770,9 +804,11 @@ class Engine:
             tr, sty = info
             if (tr or None) != trait: continue
             selfkey = type_key(f.args[0]) if f.args else None
-            if selfkey == ty: out.append((2, f)); continue                     # exact printed match on receiver
-            if sty == bare: out.append((1 if (mod is None or f.name.startswith(mod + '::<impl')) else 0, f)); continue
-            if (sty is None or sty.startswith('$') or sty in ('name', 'Self')) and (selfkey == ty or type_key(f.ret) == ty): out.append((1, f))
+            known = sty is not None and not sty.startswith('$') and sty not in ('name', 'Self')
+            if known:
+                if sty != bare: continue                                          # impl block of another type (e.g. `Source::new(text: BString)`)
+                out.append((2 if selfkey == ty else (1 if (mod is None or f.name.startswith(mod + '::<impl')) else 0), f)); continue
+            if selfkey == ty or type_key(f.ret) == ty: out.append((1, f))        # macro-generated impl: Self type unknown, go by receiver / return type
         if out:
             best = max(p for p, _ in out); out = [f for p, f in out if p == best]
             if len(out) > 1 and mod is None:
